@@ -82,6 +82,35 @@ def search(ctx):
                                "expected": "s' = min(s, n-s) <= n//2, r unchanged, bytes of the plain encoder at (r, s')"})
                 if len(ctx.violations) >= 3:
                     return
+    # call SEQUENCES with short-lived order objects: every order is created in the argument expression of the call and dies
+    # with it, the next one (another value of the same size) is born at the address just freed - what a memo keyed by
+    # id(order) (round-4 seed C13-mut34-1, round-8 seed C13-mut61-1) mistakes for the same order.  The s values lie between the
+    # two half-orders, where a stale half gives the wrong reflection.  Each call is judged on its own by the oracle.
+    for bits in (64, 112, 160, 256, 521):
+        n_hi, n_lo = (1 << bits) - 59, (1 << (bits - 1)) + 15
+        seq = []
+        for j in range(6):
+            n = (n_hi, n_lo)[j % 2] - 2 * (j // 2)
+            for s in ((3 << bits) // 8, (3 << bits) // 8 + 1 + j):          # 0.375 * 2^bits: below n_hi / 2, above n_lo / 2
+                if 1 <= s < n:
+                    seq.append((j, s, n))
+        for j, s, n in seq:
+            n_eval += 1
+            for enc, dec, plain in (("sigencode_string_canonize", "sigdecode_string", "sigencode_string"),
+                                    ("sigencode_der_canonize", "sigdecode_der", "sigencode_der"),
+                                    ("sigencode_strings_canonize", "sigdecode_strings", "sigencode_strings")):
+                try:
+                    out = getattr(util, enc)(7, s + 0, int(str(n)))          # fresh int objects, dead after the call
+                    r2, s2 = getattr(util, dec)(out, n)
+                except Exception as e:  # noqa
+                    r2, s2 = None, "exception " + common.errname(e)
+                if (r2, s2) != (7, min(s, n - s)):
+                    ctx.violation({"input": {"r": 7, "s": s, "order": n, "order_name": "fresh %d-bit order, call %d of a sequence" % (bits, j),
+                                             "sequence": [[a, str(b), str(c)] for a, b, c in seq], "encoder": enc},
+                                   "observed": {"got_s": s2, "got_r": r2}, "expected": {"s": min(s, n - s)}})
+                    break
+            if len(ctx.violations) >= 3:
+                return
     # equivalence under verification on real keys: (r, s) verifies iff (r, n-s) does
     from ecdsa import SigningKey, curves, util as u
     from ecdsa.keys import BadSignatureError
@@ -114,6 +143,18 @@ def search(ctx):
 def replay(rec):
     from ecdsa import util
     i = rec["input"]
+    if "sequence" in i:
+        # re-run the whole call sequence with fresh order objects; fails if any call of it is wrong
+        for j, s_, n_ in i["sequence"]:
+            s, n = int(s_), int(n_)
+            for enc, dec in (("sigencode_string_canonize", "sigdecode_string"), ("sigencode_der_canonize", "sigdecode_der"),
+                             ("sigencode_strings_canonize", "sigdecode_strings")):
+                try:
+                    if tuple(getattr(util, dec)(getattr(util, enc)(7, s + 0, int(str(n))), n)) != (7, min(s, n - s)):
+                        return True
+                except Exception:  # noqa
+                    return True
+        return False
     if "order" in i:
         return oracle_case(util, i["r"], i["s"], i["order"]) is not None
     if "curve" in i and "d" in i:
